@@ -1033,6 +1033,23 @@ def _user_dtype(env, x, how, declared):
     return declared
 
 
+def _row_dtype(env, cur, st):
+    """dtype a user would declare for r_add: rows of an all-numeric frame are upcast to the common dtype, otherwise
+    the two cells are added as Python scalars (decided from the dtypes the lazy collection reports)"""
+    if not env.is_dask or st["func"] != "r_add":
+        return st["meta"]
+    try:
+        dts = cur.dtypes
+        if all(getattr(d, "kind", "O") in "iufb" for d in dts):
+            return str(np.result_type(*list(dts)))
+        x, y = (dts[c] for c in st["args"])
+        if all(getattr(d, "kind", "O") in "iufb" for d in (x, y)):
+            return str(np.result_type(x, y))
+    except Exception:  # noqa: BLE001
+        pass
+    return st["meta"]
+
+
 def ev(e, df, env):
     """Evaluate an expression against frame `df` (dask or pandas); env.self_ is the series of ["self"]."""
     t = e[0]
@@ -1183,7 +1200,8 @@ def apply(description, frame, is_dask, other=None, upto=None, full_meta=False):
                 kw["upper"] = st["upper"]
             cur = cur.clip(**kw)
         elif op == "apply_rows":
-            cur = cur.apply(FUNCS[st["func"]], axis=1, args=tuple(st["args"]), **_meta_kw(env, cur, st["meta"], name=None))
+            cur = cur.apply(FUNCS[st["func"]], axis=1, args=tuple(st["args"]),
+                            **_meta_kw(env, cur, _row_dtype(env, cur, st), name=None))
         elif op == "rename":
             cur = cur.rename(columns=dict(st["columns"]))
         elif op == "series":
